@@ -148,14 +148,14 @@ package shard
 // list under the counter's two keys; the constructor reads the next free id back from the same
 // key with the inverse codec (2 for a fresh shard).
 //@ func (*IdCounter).Flush
-//@   property C08 C10
+//@   property C01 C08 C10
 //@   pure
 //@   ensures ncalls(Put) >= 1 && callarg(Put, 1, 1) == ic.nextFreeIdKey && len(callarg(Put, 1, 2)) == 8 && le64at(callarg(Put, 1, 2), 0) == ic.nextFreeId
 //@   ensures callres(Put, 1, 0) != nil ==> result != nil && ncalls(Put) == 1
 //@   ensures callres(Put, 1, 0) == nil ==> ncalls(Put) == 2 && callarg(Put, 2, 1) == ic.freeIdsKey && callarg(Put, 2, 2) == callres(EdgeListToBytes, 1, 0) && callarg(EdgeListToBytes, 1, 0) == ic.freeIds
 //@   ensures ncalls(Put) == 2 ==> (result == nil) == (callres(Put, 2, 0) == nil)
 //@ func NewIdCounter
-//@   property C08 C10
+//@   property C01 C08 C10
 //@   safety -slice -overflow -index -makelen
 //@   after Get assume result == nil || len(result) >= 8
 //@   ensures result1 == nil && result0 != nil && fresh(result0) && result0.bucket == bucket && result0.freeIdsKey == freeIdsKey && result0.nextFreeIdKey == nextFreeIdKey
